@@ -328,11 +328,13 @@ func (s *Sim) hookLockYield(m any, name string, write bool) {
 		return
 	}
 	t.waitLock, t.waitWrite, t.waitName = m, write, name
-	if s.ParkLocks[name] {
-		must = true // an opted-in lock is a scheduling point whatever the profile's site filter says
-	}
+	optIn := s.ParkLocks[name] // an opted-in lock is a scheduling point whatever the profile's site filter says
 	s.mu.Unlock()
-	s.parkEx(site, false, must)
+	if optIn && !must && !s.passAll.Load() && !t.Pass {
+		s.parkForced(site)
+	} else {
+		s.parkEx(site, false, must)
+	}
 	s.mu.Lock()
 	t.waitLock = nil
 	s.mu.Unlock()
@@ -448,7 +450,12 @@ var lastCtrlBlocked atomic.Bool
 
 var lastDeadlock atomic.Pointer[deadlockRec]
 
-func (s *Sim) parkEx(site string, spin bool, must bool) {
+// parkForced parks at site regardless of the profile's site filter (but not in pass-through mode).
+func (s *Sim) parkForced(site string) { s.parkEx2(site, false, false, true) }
+
+func (s *Sim) parkEx(site string, spin bool, must bool) { s.parkEx2(site, spin, must, false) }
+
+func (s *Sim) parkEx2(site string, spin bool, must bool, noFilter bool) {
 	if s.reaping.Load() {
 		if g := goid(); g != s.ctrl {
 			runtime.Goexit()
@@ -480,7 +487,7 @@ func (s *Sim) parkEx(site string, spin bool, must bool) {
 	}
 	s.mu.Lock()
 	t := s.taskFor(g)
-	if t.Pass && !mustPark || !mustPark && ((s.siteFilter != nil && !spin && !s.siteFilter(site)) || (s.siteFilter == nil && s.sites != nil && !s.sites[site] && !spin)) {
+	if t.Pass && !mustPark || !mustPark && !noFilter && ((s.siteFilter != nil && !spin && !s.siteFilter(site)) || (s.siteFilter == nil && s.sites != nil && !s.sites[site] && !spin)) {
 		s.mu.Unlock()
 		return
 	}
